@@ -1,4 +1,5 @@
 import ReplicatProofs.Lemmas.RoundTrip
+import ReplicatProofs.Lemmas.RestoreOps
 /-!
 # C01 — backup round trip is the identity on file trees
 
@@ -7,7 +8,9 @@ concurrent workers in ANY completion order + the chunk-less file entries), `plan
 writer threads in ANY execution order, `_write_file_part`, the final length), `flattenArgs` (`_flatten_resolve_paths`).
 The chunker is an arbitrary list of chunk lengths that add up to the stream (C10 proves the real chunker is lossless),
 the hash/cipher do not occur (identity of names is C07/C04).  The guards of `_chunk_done`, the padding and truncate
-expressions and the four "shape of the fix" flags are the *generated* `Replicat.Gen` definitions.
+expressions and the four "shape of the fix" flags are the *generated* `Replicat.Gen` definitions; so is the list of operations
+`_write_file_part` performs on the opened file (`Gen.writePartOps`) and the fact that every reference reaches it
+(`Gen.everyRefReachesWritePart`), which is what makes `writePart` — "every part handed over is written" — the code's behaviour.
 -/
 namespace Replicat.C01
 open Replicat List
@@ -183,6 +186,44 @@ example :
     lens.sum = (streamOf 4 files).length ∧
     finalRecords 3 (records (layout 4 (files.map List.length)) (spansFrom 0 lens) [2, 1, 0])
       = [(2, [⟨3, 0, 3⟩, ⟨2, 4, 4⟩]), (1, [⟨2, 0, 1⟩, ⟨1, 0, 4⟩]), (0, [⟨1, 0, 0⟩])] := by
+  decide +kernel
+
+/-- **Every part is written, whatever it contains.**  `_write_file_part` as the sequence of operations read from the source —
+with any control flow between them resolved by an ARBITRARY predicate `leave` of the data — is the model's `writePart`:
+`truncate(max(file_end, offset + len))`, then the bytes of the part at `offset`.  There is no content class (zeros, a long run of
+one byte, …), length or old content of the target for which the write is skipped.  (Provable only while the operation list has no
+`branch`: a data-dependent exit between the truncate and the write falsifies it, see `skipped_part_keeps_old_bytes`.) -/
+theorem write_part_unconditional (leave : Bytes → Bool) (old : Bytes) (off : Nat) (data : Bytes) :
+    runW leave off data Gen.writePartOps ⟨old, 0, 0⟩ = writePart old off data := by
+  have h : Gen.writePartOps = [.seekEnd, .truncate, .seekOffset, .writeData] := by decide
+  rw [h]
+  exact runW_straight leave old off data 0 0
+
+/-- **The restore of the code is the restore of the model**: every reference of the plan reaches `_write_file_part`
+(`Gen.everyRefReachesWritePart`) and is written there unconditionally, so `restore_file_exact` / `roundtrip` speak about what
+the writer threads really do — over every pre-existing target and for every content. -/
+theorem restore_code_eq_model (leave : Bytes → Bool) (chunks : List Bytes) (old : Option Bytes) (refs : List Ref)
+    (ws : List PlanEntry) : restoreFileCode leave chunks old refs ws = restoreFile chunks old refs ws := by
+  have hw : applyWritesCode leave chunks (old.getD []) ws = applyWrites chunks (old.getD []) ws := by
+    unfold applyWritesCode applyWrites
+    simp only [show Gen.everyRefReachesWritePart = true by decide, if_true]
+    congr 1
+    funext cur e
+    exact write_part_unconditional leave cur e.2.2.2 (partData chunks e)
+  unfold restoreFileCode restoreFile
+  rw [hw]
+
+/-- **Why the fact is needed** (negation witness for the class "content × what already exists at the target"): were there
+an exit between the truncate and the write that is taken for some part (here: every part), a part lying inside the old file
+would keep the OLD bytes — four zeros restored over four 0xFF bytes stay 0xFF. -/
+theorem skipped_part_keeps_old_bytes :
+    runW (fun _ => true) 0 [0, 0, 0, 0] [.seekEnd, .truncate, .branch, .seekOffset, .writeData] ⟨[255, 255, 255, 255], 0, 0⟩
+        = [255, 255, 255, 255]
+      ∧ writePart [255, 255, 255, 255] 0 [0, 0, 0, 0] = [0, 0, 0, 0] := by
+  decide +kernel
+
+/-- non-vacuity: a zero part written into the middle of a longer all-ones file through the generated operation list -/
+example : runW (fun d => d.all (· == 0)) 1 [0, 0] Gen.writePartOps ⟨[255, 255, 255, 255, 255], 0, 0⟩ = [255, 0, 0, 255, 255] := by
   decide +kernel
 
 end Replicat.C01
